@@ -6,14 +6,14 @@
      cres = COk v | CExn e                        a result or the exception class raised
      world                                        what is runtime: codec registry (lookup / enc / dec), the value of
                                                   sys.stdin.encoding or sys.getdefaultencoding(), the NFKD->ASCII fold
-     world3 d                                     the concrete world: CPython's UTF-8, Latin-1 and ASCII codecs,
+     world3 d                                     the concrete world: CPython's UTF-8, Latin-1, ASCII, UTF-16(-LE/-BE), UTF-32(-LE/-BE), cp1252, koi8-r codecs,
                                                   its name lookup for them, the generated NFKD table, default encoding d
    Part A: any world, contracts as premises.  Part B: world3, no premises left.  Part C: the regex engine. *)
 From Coq Require Import String.
 Require Import OV.Base.Bytes OV.Base.PyInt OV.Base.Str OV.Base.Regex OV.Base.C16_Py.
-Require Import OV.Gen.C16_Aliases OV.Gen.C16_Fold OV.Gen.C16_Slug OV.Gen.C16_Code.
+Require Import OV.Gen.C16_Aliases OV.Gen.C16_Fold OV.Gen.C16_Charmaps OV.Gen.C16_Slug OV.Gen.C16_Code.
 Require Import OV.Model.C16 OV.Model.C16_Codecs.
-Require Import OV.Proofs.C16_Regex OV.Proofs.C16 OV.Proofs.C16_Slug OV.Proofs.C16_Codecs OV.Proofs.C16_Closed.
+Require Import OV.Proofs.C16_Regex OV.Proofs.C16 OV.Proofs.C16_Slug OV.Proofs.C16_Utf16 OV.Proofs.C16_Codecs OV.Proofs.C16_Closed.
 Open Scope N_scope.
 
 (* ======================= Part A: any runtime world ======================= *)
@@ -166,16 +166,212 @@ Theorem C16_utf8_decoder_canonical : forall b t,
 Proof. exact utf8_dec_strict_canonical. Qed.
 Print Assumptions C16_utf8_decoder_canonical.
 
-(* the helpers' round trip for UTF-8 (all surrogate-free text), Latin-1 (text below U+0100) and ASCII
-   (below U+0080), through any ASCII spelling of the codec name in any letter case, any error policy *)
-Theorem C16_roundtrip_utf8_latin1_ascii : forall d e c t incoming0 errors,
+(* UTF-16 (le = true: little endian, false: big endian) and UTF-32: the same two facts.  For the decoders the
+   first conjunct says the policy is irrelevant when strict decoding succeeds, the second that the decoder is
+   canonical on byte strings (no lone surrogate, nothing out of range accepted). *)
+Theorem C16_utf16_codec_roundtrip : forall le t, valid_text t = true ->
+  exists b, (forall p, utf16_enc le p t = COk b) /\ (forall p, utf16_dec le p b = COk t).
+Proof. exact utf16_roundtrip. Qed.
+Print Assumptions C16_utf16_codec_roundtrip.
+
+Theorem C16_utf16_decoder_canonical : forall le b t,
+  utf16_dec le Strict b = COk t ->
+  (forall p, utf16_dec le p b = COk t) /\
+  (all_bytes b = true -> valid_text t = true /\ utf16_enc le Strict t = COk b).
+Proof. exact utf16_dec_strict_canonical. Qed.
+Print Assumptions C16_utf16_decoder_canonical.
+
+Theorem C16_utf32_codec_roundtrip : forall le t, valid_text t = true ->
+  exists b, (forall p, utf32_enc le p t = COk b) /\ (forall p, utf32_dec le p b = COk t).
+Proof. exact utf32_roundtrip. Qed.
+Print Assumptions C16_utf32_codec_roundtrip.
+
+Theorem C16_utf32_decoder_canonical : forall le b t,
+  utf32_dec le Strict b = COk t ->
+  (forall p, utf32_dec le p b = COk t) /\
+  (all_bytes b = true -> valid_text t = true /\ utf32_enc le Strict t = COk b).
+Proof. exact utf32_dec_strict_canonical. Qed.
+Print Assumptions C16_utf32_decoder_canonical.
+
+(* 'utf-16' / 'utf-32' proper: BOM in the machine's byte order written, BOM of either order honoured *)
+Theorem C16_utf16_bom_codec_roundtrip : forall t, valid_text t = true ->
+  exists b, (forall p, utf16_bom_enc p t = COk b) /\ (forall p, utf16_bom_dec p b = COk t).
+Proof. exact utf16_bom_roundtrip. Qed.
+Print Assumptions C16_utf16_bom_codec_roundtrip.
+
+Theorem C16_utf32_bom_codec_roundtrip : forall t, valid_text t = true ->
+  exists b, (forall p, utf32_bom_enc p t = COk b) /\ (forall p, utf32_bom_dec p b = COk t).
+Proof. exact utf32_bom_roundtrip. Qed.
+Print Assumptions C16_utf32_bom_codec_roundtrip.
+
+(* all eleven concrete codecs at once: representable text (surrogate-free; below U+0100 for Latin-1, below U+0080
+   for ASCII; characters of the table for cp1252 / koi8-r) is encoded under any policy to bytes that decode under any policy to the same text *)
+Theorem C16_codec_roundtrip_all : forall c t, representable3 c t = true ->
+  exists b, (forall e, enc3 c t e = COk b) /\ (forall e, dec3 c b e = COk t).
+Proof. exact enc3_dec3_roundtrip. Qed.
+Print Assumptions C16_codec_roundtrip_all.
+
+(* the helpers' round trip through any ASCII spelling, in any letter case, of a name CPython resolves to one of
+   the eleven codecs (generated alias table + CPython's name normalisation), any error policy *)
+Theorem C16_roundtrip_concrete_codecs : forall d e c t incoming0 errors,
   forallb is_ascii e = true ->
   lookup3 e = Some c ->
   representable3 c t = true ->
   exists b, safe_encode (world3 d) (PStr t) incoming0 e errors = COk (PBytes b) /\
             safe_decode (world3 d) (PBytes b) (Some e) errors = COk t.
 Proof. exact world3_roundtrip. Qed.
-Print Assumptions C16_roundtrip_utf8_latin1_ascii.
+Print Assumptions C16_roundtrip_concrete_codecs.
+
+(* ... and spelled out codec by codec *)
+Theorem C16_roundtrip_utf8 : forall d e t incoming0 errors,
+  forallb is_ascii e = true -> lookup3 e = Some CUtf8 -> valid_text t = true ->
+  exists b, safe_encode (world3 d) (PStr t) incoming0 e errors = COk (PBytes b) /\
+            safe_decode (world3 d) (PBytes b) (Some e) errors = COk t.
+Proof. exact world3_roundtrip_utf8. Qed.
+Print Assumptions C16_roundtrip_utf8.
+
+Theorem C16_roundtrip_latin1 : forall d e t incoming0 errors,
+  forallb is_ascii e = true -> lookup3 e = Some CLatin1 -> forallb (fun x => x <? 256) t = true ->
+  exists b, safe_encode (world3 d) (PStr t) incoming0 e errors = COk (PBytes b) /\
+            safe_decode (world3 d) (PBytes b) (Some e) errors = COk t.
+Proof. exact world3_roundtrip_latin1. Qed.
+Print Assumptions C16_roundtrip_latin1.
+
+Theorem C16_roundtrip_ascii : forall d e t incoming0 errors,
+  forallb is_ascii e = true -> lookup3 e = Some CAscii -> forallb (fun x => x <? 128) t = true ->
+  exists b, safe_encode (world3 d) (PStr t) incoming0 e errors = COk (PBytes b) /\
+            safe_decode (world3 d) (PBytes b) (Some e) errors = COk t.
+Proof. exact world3_roundtrip_ascii. Qed.
+Print Assumptions C16_roundtrip_ascii.
+
+Theorem C16_roundtrip_utf16 : forall d e t incoming0 errors,
+  forallb is_ascii e = true -> lookup3 e = Some CUtf16 -> valid_text t = true ->
+  exists b, safe_encode (world3 d) (PStr t) incoming0 e errors = COk (PBytes b) /\
+            safe_decode (world3 d) (PBytes b) (Some e) errors = COk t.
+Proof. exact world3_roundtrip_utf16. Qed.
+Print Assumptions C16_roundtrip_utf16.
+
+Theorem C16_roundtrip_utf16le : forall d e t incoming0 errors,
+  forallb is_ascii e = true -> lookup3 e = Some CUtf16LE -> valid_text t = true ->
+  exists b, safe_encode (world3 d) (PStr t) incoming0 e errors = COk (PBytes b) /\
+            safe_decode (world3 d) (PBytes b) (Some e) errors = COk t.
+Proof. exact world3_roundtrip_utf16le. Qed.
+Print Assumptions C16_roundtrip_utf16le.
+
+Theorem C16_roundtrip_utf16be : forall d e t incoming0 errors,
+  forallb is_ascii e = true -> lookup3 e = Some CUtf16BE -> valid_text t = true ->
+  exists b, safe_encode (world3 d) (PStr t) incoming0 e errors = COk (PBytes b) /\
+            safe_decode (world3 d) (PBytes b) (Some e) errors = COk t.
+Proof. exact world3_roundtrip_utf16be. Qed.
+Print Assumptions C16_roundtrip_utf16be.
+
+Theorem C16_roundtrip_utf32 : forall d e t incoming0 errors,
+  forallb is_ascii e = true -> lookup3 e = Some CUtf32 -> valid_text t = true ->
+  exists b, safe_encode (world3 d) (PStr t) incoming0 e errors = COk (PBytes b) /\
+            safe_decode (world3 d) (PBytes b) (Some e) errors = COk t.
+Proof. exact world3_roundtrip_utf32. Qed.
+Print Assumptions C16_roundtrip_utf32.
+
+Theorem C16_roundtrip_utf32le : forall d e t incoming0 errors,
+  forallb is_ascii e = true -> lookup3 e = Some CUtf32LE -> valid_text t = true ->
+  exists b, safe_encode (world3 d) (PStr t) incoming0 e errors = COk (PBytes b) /\
+            safe_decode (world3 d) (PBytes b) (Some e) errors = COk t.
+Proof. exact world3_roundtrip_utf32le. Qed.
+Print Assumptions C16_roundtrip_utf32le.
+
+Theorem C16_roundtrip_utf32be : forall d e t incoming0 errors,
+  forallb is_ascii e = true -> lookup3 e = Some CUtf32BE -> valid_text t = true ->
+  exists b, safe_encode (world3 d) (PStr t) incoming0 e errors = COk (PBytes b) /\
+            safe_decode (world3 d) (PBytes b) (Some e) errors = COk t.
+Proof. exact world3_roundtrip_utf32be. Qed.
+Print Assumptions C16_roundtrip_utf32be.
+
+Theorem C16_roundtrip_cp1252 : forall d e t incoming0 errors,
+  forallb is_ascii e = true -> lookup3 e = Some CCp1252 -> charmap_repr cp1252_table t = true ->
+  exists b, safe_encode (world3 d) (PStr t) incoming0 e errors = COk (PBytes b) /\
+            safe_decode (world3 d) (PBytes b) (Some e) errors = COk t.
+Proof. exact world3_roundtrip_cp1252. Qed.
+Print Assumptions C16_roundtrip_cp1252.
+
+Theorem C16_roundtrip_koi8r : forall d e t incoming0 errors,
+  forallb is_ascii e = true -> lookup3 e = Some CKoi8R -> charmap_repr koi8r_table t = true ->
+  exists b, safe_encode (world3 d) (PStr t) incoming0 e errors = COk (PBytes b) /\
+            safe_decode (world3 d) (PBytes b) (Some e) errors = COk t.
+Proof. exact world3_roundtrip_koi8r. Qed.
+Print Assumptions C16_roundtrip_koi8r.
+
+(* single-byte codecs given by a decoding table (cp1252 and koi8-r: tables regenerated from CPython): round trip for
+   every text whose characters occur in the table, any table, any length *)
+Theorem C16_charmap_codec_roundtrip : forall tbl t, charmap_repr tbl t = true ->
+  exists b, (forall p, charmap_enc tbl p t = COk b) /\ (forall p, charmap_dec tbl p b = COk t).
+Proof. exact charmap_roundtrip. Qed.
+Print Assumptions C16_charmap_codec_roundtrip.
+
+(* codec-name lookup (CPython's normalisation + the generated alias table): only the ASCII-lower-cased name matters,
+   and any separator ('-', '_', ' ', ...) may stand for any other *)
+Theorem C16_lookup_case_insensitive : forall a b, lower_ascii a = lower_ascii b -> lookup3 a = lookup3 b.
+Proof. exact lookup3_case. Qed.
+Print Assumptions C16_lookup_case_insensitive.
+
+Theorem C16_lookup_separator_insensitive : forall a b, same_but_seps a b -> lookup3 a = lookup3 b.
+Proof. exact lookup3_seps. Qed.
+Print Assumptions C16_lookup_separator_insensitive.
+
+(* transcoding between any two of the eleven codecs: safe_encode(bytes, incoming=a, encoding=b) = encode_b(decode_a(bytes))
+   whenever the lower-cased names differ and codec a decodes the bytes (under the given policy) *)
+Theorem C16_transcodes_concrete : forall d b incoming encoding errors cin cout t,
+  b <> [] ->
+  forallb is_ascii (resolve_incoming (world3 d) incoming) = true -> forallb is_ascii encoding = true ->
+  py_lower encoding <> py_lower (resolve_incoming (world3 d) incoming) ->
+  lookup3 (resolve_incoming (world3 d) incoming) = Some cin -> lookup3 encoding = Some cout ->
+  dec3 cin b errors = COk t ->
+  safe_encode (world3 d) (PBytes b) incoming encoding errors = cmap PBytes (enc3 cout t errors).
+Proof. exact world3_transcodes. Qed.
+Print Assumptions C16_transcodes_concrete.
+
+(* the nine BOM-less codecs are canonical: re-encoding what was strictly decoded from a byte string gives the bytes *)
+Theorem C16_reencode_identity : forall c b t, canonical3 c = true -> all_bytes b = true ->
+  dec3 c b strict_name = COk t -> enc3 c t strict_name = COk b.
+Proof. exact enc3_after_dec3. Qed.
+Print Assumptions C16_reencode_identity.
+
+(* The "same codec" shortcut of safe_encode compares lower-cased NAMES, not codecs.  It is sound: whenever it fires
+   on input that the (BOM-less) codec decodes, the transcoding branch would have returned the same bytes. *)
+Theorem C16_shortcut_sound : forall d b incoming encoding errors c t,
+  b <> [] -> all_bytes b = true ->
+  forallb is_ascii (resolve_incoming (world3 d) incoming) = true -> forallb is_ascii encoding = true ->
+  py_lower encoding = py_lower (resolve_incoming (world3 d) incoming) ->
+  lookup3 encoding = Some c -> canonical3 c = true ->
+  dec3 c b strict_name = COk t ->
+  safe_encode (world3 d) (PBytes b) incoming encoding errors = COk (PBytes b) /\
+  transcode (world3 d) b incoming encoding errors = COk (PBytes b).
+Proof. exact world3_shortcut_sound. Qed.
+Print Assumptions C16_shortcut_sound.
+
+(* For the BOM-writing 'utf-16' / 'utf-32' (and in fact for every codec) transcoding to the same codec yields bytes
+   that decode to the same text; for these two they need not be the input bytes (ex_shortcut_bom below) *)
+Theorem C16_shortcut_same_text : forall d b incoming encoding errors c t,
+  b <> [] -> all_bytes b = true ->
+  forallb is_ascii (resolve_incoming (world3 d) incoming) = true -> forallb is_ascii encoding = true ->
+  lookup3 (resolve_incoming (world3 d) incoming) = Some c -> lookup3 encoding = Some c ->
+  dec3 c b strict_name = COk t ->
+  exists b', transcode (world3 d) b incoming encoding errors = COk (PBytes b') /\
+             forall e, dec3 c b' e = COk t.
+Proof. exact world3_shortcut_bom. Qed.
+Print Assumptions C16_shortcut_same_text.
+
+(* the names differ after lower-casing but denote the same BOM-less codec ('utf-8' vs 'utf8', 'latin-1' vs 'L1'):
+   safe_encode takes the transcoding branch and still returns the input for valid input *)
+Theorem C16_alias_transcode_identity : forall d b incoming encoding errors c t,
+  b <> [] -> all_bytes b = true ->
+  forallb is_ascii (resolve_incoming (world3 d) incoming) = true -> forallb is_ascii encoding = true ->
+  py_lower encoding <> py_lower (resolve_incoming (world3 d) incoming) ->
+  lookup3 (resolve_incoming (world3 d) incoming) = Some c -> lookup3 encoding = Some c ->
+  canonical3 c = true ->
+  dec3 c b strict_name = COk t ->
+  safe_encode (world3 d) (PBytes b) incoming encoding errors = COk (PBytes b).
+Proof. exact world3_alias_transcode_identity. Qed.
+Print Assumptions C16_alias_transcode_identity.
 
 Theorem C16_to_utf8_is_utf8 : forall d s,
   to_utf8 (world3 d) (PStr s) = cmap PBytes (utf8_enc Strict s) /\
@@ -222,6 +418,48 @@ Example ex_roundtrip :
   safe_decode w_ascii (PBytes [195;169; 226;130;172; 240;159;152;128]) (Some (lit "UtF-8")) (lit "replace")
     = COk [233; 8364; 128512].
 Proof. vm_compute. split; reflexivity. Qed.
+(* transcoding Latin-1 -> UTF-16 (BOM, native order), UTF-16-BE -> UTF-8, through aliases in mixed case *)
+Example ex_transcode :
+  safe_encode w_ascii (PBytes [233; 65]) (Some (lit "L1")) (lit "UTF_16") (lit "strict") = COk (PBytes [255;254; 233;0; 65;0]) /\
+  safe_encode w_ascii (PBytes [216;61;222;0]) (Some (lit "UTF-16BE")) (lit "u8") (lit "strict") = COk (PBytes [240;159;152;128]) /\
+  lookup3 (lit "L1") = Some CLatin1 /\ lookup3 (lit "UTF_16") = Some CUtf16 /\ lookup3 (lit "UTF-16BE") = Some CUtf16BE.
+Proof. vm_compute. repeat split. Qed.
+(* the shortcut on 'utf-16': big-endian input with BOM comes back untouched, transcoding would have produced the
+   native-order form — same text, other bytes *)
+Example ex_shortcut_bom :
+  safe_encode w_ascii (PBytes [254;255; 0;65]) (Some (lit "utf-16")) (lit "UTF-16") (lit "strict") = COk (PBytes [254;255; 0;65]) /\
+  transcode w_ascii [254;255; 0;65] (Some (lit "utf-16")) (lit "UTF-16") (lit "strict") = COk (PBytes [255;254; 65;0]).
+Proof. vm_compute. split; reflexivity. Qed.
+(* alias spelling on INVALID input is not the identity: ASCII cannot decode C3 A9; the UTF-8 fallback can, and then
+   ASCII cannot encode the result / drops it *)
+Example ex_alias_invalid :
+  safe_encode w_ascii (PBytes [195;169]) (Some (lit "ascii")) (lit "us-ascii") (lit "strict") = CExn EUnicodeEncodeError /\
+  safe_encode w_ascii (PBytes [195;169]) (Some (lit "ascii")) (lit "us-ascii") (lit "ignore") = COk (PBytes []) /\
+  safe_encode w_ascii (PBytes [65]) (Some (lit "ascii")) (lit "us-ascii") (lit "strict") = COk (PBytes [65]).
+Proof. vm_compute. repeat split. Qed.
+(* UTF-16 / UTF-32 decoders on malformed input *)
+Example ex_utf16_malformed :
+  utf16_dec true Replace [0;216; 65;0] = COk [65533; 65] /\        (* high surrogate, then 'A': the 'A' survives *)
+  utf16_dec true Replace [0;220; 65;0] = COk [65533; 65] /\        (* lone low surrogate *)
+  utf16_dec true Replace [0;216; 65] = COk [65533] /\              (* high surrogate + one byte: all swallowed *)
+  utf16_dec true Replace [65;0; 66] = COk [65; 65533] /\           (* odd length *)
+  utf16_dec true Strict [0;216] = CExn EUnicodeDecodeError /\
+  utf32_dec true Replace [0;216;0;0; 65] = COk [65533; 65533] /\   (* surrogate unit, then truncated *)
+  utf32_dec true Replace [0;0;17;0] = COk [65533] /\               (* 0x110000 *)
+  utf32_bom_dec Strict [0;0;254;255; 0;0;0;65] = COk [65].
+Proof. vm_compute. repeat split. Qed.
+Example ex_aliases :
+  map lookup3 [lit "utf8"; lit "UTF_16LE"; lit "latin1"; lit "iso-8859-1"; lit "l1"; lit "U32"; lit "utf 8"; lit "Utf-16-bE"; lit "us-ascii"; lit "utf-9"]
+  = [Some CUtf8; Some CUtf16LE; Some CLatin1; Some CLatin1; Some CLatin1; Some CUtf32; Some CUtf8; Some CUtf16BE; Some CAscii; None] /\
+  same_but_seps (lit "utf-16-le") (lit "utf_16 le").
+Proof. split; [vm_compute; reflexivity|]. repeat constructor; (left; reflexivity) || (right; split; reflexivity). Qed.
+Example ex_charmaps :
+  safe_encode w_ascii (PStr [8364; 233]) None (lit "Windows-1252") (lit "strict") = COk (PBytes [128; 233]) /\
+  safe_decode w_ascii (PBytes [128; 233]) (Some (lit "cp1252")) (lit "strict") = COk [8364; 233] /\
+  charmap_repr cp1252_table [8364; 233] = true /\ lookup3 (lit "Windows-1252") = Some CCp1252 /\
+  safe_encode w_ascii (PBytes [208;175]) (Some (lit "UTF8")) (lit "KOI8_R") (lit "strict") = COk (PBytes [241]) /\
+  charmap_dec cp1252_table Replace [65; 129] = COk [65; 65533].
+Proof. vm_compute. repeat split. Qed.
 Example ex_latin1 : lookup3 (lit "ISO_8859-1:1987") = Some CLatin1 /\ representable3 CLatin1 [233; 255] = true.
 Proof. vm_compute. split; reflexivity. Qed.
 (* the abstract contracts are satisfiable: the concrete world has them *)
